@@ -151,6 +151,15 @@ def fam_control():
         ("ctl:loop-last-is-ifnoelse-volgende", "stel t = 0; stel i = 0; zolang i < 4 { i += 1; als i == %s { volgende; } }; [i, t]" % H0),
         ("ctl:program-last-is-ifnoelse", "stel t = %s; als t < %s { t = t + 1; }" % (H0, H1)),
     ]
+    # (5c) inside a function: a branch / loop body whose last statement assigns to a LOCAL, with the value of the if / loop used
+    out += [
+        ("ctl:fn-branch-ends-in-local-assign", "functie f(n) { stel x = 1; als n < %s { x = x + 5 } anders { x += 1 } }; [f(%s), f(0)]" % (H0, H1)),
+        ("ctl:fn-branch-local-assign-value-stored", "functie f(n) { stel x = 1; stel y = als n < %s { x = 3 } anders { x -= 1 }; [x, y] }; [f(%s), f(0)]" % (H0, H1)),
+        ("ctl:fn-param-assign-in-branch", "functie f(n) { als n < %s { n = n * 2 } anders als n == %s { n += 7 } anders { n } }; [f(%s), f(1), f(0)]" % (H0, H0, H1)),
+        ("ctl:fn-loop-body-ends-in-local-assign", "functie f(n) { stel s = 0; stel i = 0; zolang i < n { i += 1; s = s + i }; [s, i] }; f(%s)" % H0),
+        ("ctl:fn-branch-assign-as-argument", "functie g(a, b) { a * 10 + b }; functie f(n) { stel x = 0; g(als n < %s { x = 4 } anders { x = 6 }, x) }; [f(%s), f(0)]" % (H0, H1)),
+        ("ctl:top-branch-ends-in-global-assign", "stel x = 1; stel y = als %s < %s { x = x + 5 } anders { x += 1 }; [x, y]" % (H0, H1)),
+    ]
     # (6) while / if used as values and as arguments
     out += [
         ("ctl:if-as-arg", "functie f(a, b) { a - b }; f(als %s < %s { 1 } anders { 2 }, als %s < %s { 10 })" % (H0, H1, H1, H2)),
@@ -468,6 +477,10 @@ def fam_builtins():
         out.append(("blt:of-fn:" + b, 'print("x"); %s(functie() { 1 })' % b))
         out.append(("blt:of-arr:" + b, 'print("x"); %s([1, 2])' % b))
     out += [
+        ("blt:print-array-empty-elements", 'functie niets() { }; print("{}", ["", "a", "b"]); print(["", ""]); print([["", 2], 3]); print([niets(), 1, 2]); print(["a", "", "b", niets()]); [string(["", 1]), string([niets()])]'),
+        ("blt:print-array-nested", 'print([[], [[]], [1, [2, [3, "x"]]], "s"]); print("{}-{}", [1.5, ja], [nee, [0 - 1]]); string([[1, 2], "t", [ja]])'),
+    ]
+    out += [
         ("blt:int-text-roundtrip-big", "stel n = 9007199254740993; stel m = 0 - 9007199254740995; [int(string(n)) == n, int(string(n)), int(string(m)) == m, int(string(m)), string(n)]"),
         ("blt:int-text-roundtrip-ends", 'stel hi = 1152921504606846975; stel lo = 0 - hi - 1; [int(string(hi)) == hi, int(string(lo)) == lo, int("1152921504606846975"), int("-1152921504606846976"), string(lo)]'),
         ("blt:int-text-roundtrip-mid", 'stel a = 1152921504606846974; stel b = 576460752303423489; [int(string(a)), int(string(b)), int("0"), int("-0"), int("007")]'),
@@ -776,6 +789,8 @@ SESSION_LINES = [
     ("callfn", "f(4)"),
     ("heapstore", "v[0] = 2.5 + 1.0; 0"),
     ("callalloc", "functie w() { 1 }; w(); stel z = [7.25 + 1.0, \"fill\"]; z"),
+    ("value-then-fail", "7 * 2; 3 + 1; [1][5]"),
+    ("declonly", "stel d = 3"),
 ]
 
 # directed longer sessions (name, lines): multi-step sequences that 3-line enumeration cannot reach
@@ -795,6 +810,12 @@ DIRECTED_SESSIONS = [
     ("fn-per-line-different-arity", ["stel f = functie(a) { stel t = a * 2; t }; f(%s)" % H0, "stel g = functie(a, b) { a + b }; g(1, %s)" % H1, "stel h = functie() { 7 }; h()"]),
     ("fn-per-line-different-arity-rev", ["stel g = functie(a, b) { a + b }; g(1, %s)" % H1, "stel f = functie(a) { stel t = a * 2; t }; f(%s)" % H0]),
     ("fn-per-line-same-shape", ["functie p(a) { a + 1 }; p(%s)" % H0, "functie q(a) { a + 2 }; q(%s)" % H0, "functie r(a, b) { a + b }; r(1, %s)" % H1, "functie s(a) { a + 1 }; s(%s)" % H1]),
+    # a line that fails after it produced values: the NEXT line's value must not be a left-over of the failed one
+    # (the failing lines assign nothing before they fail: what a failed line assigned stays assigned, and the oracle - the
+    # program made of the successful lines - cannot express that)
+    ("stale-value-after-failed-line", ["stel a = %s" % H0, "a * 2; a + 1; a / 0", "stel c = a", "c"]),
+    ("stale-value-after-failed-loop", ["stel d = 0", "functie lus() { stel i = 0; zolang i < 5 { i += 1; i * 10; als i == 3 { [1][i]; } } }; 8; lus()", "stel k = 1", "{ }", "d"]),
+    ("stale-value-after-failed-call", ["5; 6", "functie h(n) { n + 1; n * 2; [n][n] }; 5; h(%s + 1)" % H0, "stel e = 1", "e"]),
     ("heap-constant-reuse", ['stel s = "abc"', 'stel t = "abc"; t[0] = "x"; t', "s", '"abc"', "1.5", "1.5 + 1.5"]),
 ]
 
